@@ -763,11 +763,15 @@ theorem C14_daemon_unlink_after_inject (cfg : Daemon.Cfg) (evs : List Daemon.Ev)
           Daemon.isInfix file body = true ∧ env = Daemon.bounceEnvelope cfg (senderOf info))) := by
   obtain ⟨g, hg⟩ := gacceptAll_total cfg evs {} (fun _ => {}) s hacc
   have hG := (greach_inv cfg s g ⟨evs, hg⟩).2 m
-  simp only [Daemon.accept] at hu
+  -- `unlinkBounce` is judged outside the crash window, in `s.calm` (same files, same history)
+  change Daemon.acceptCore cfg s.calm _ = _ at hu
+  simp only [Daemon.acceptCore] at hu
   split at hu
   · cases hu
   · split at hu
     · rename_i info file hinfo hfile
+      have hinfo : (s.msg m).info = some info := hinfo
+      have hfile : (s.msg m).bounce = some file := hfile
       refine ⟨info, file, hinfo, hfile, ?_⟩
       split at hu
       · split at hu
@@ -918,7 +922,13 @@ theorem C14_daemon_retry (cfg : Daemon.Cfg) (s s' : Daemon.St) (m : Nat) (env bo
     (s'.msg m).bounce = (s.msg m).bounce ∧ (s'.msg m).inFile = (s.msg m).inFile ∧ (s'.msg m).noted = (s.msg m).noted ∧
     (s'.msg m).bounced = (s.msg m).bounced ∧ (s'.msg m).bounce.isSome = true ∧
     Daemon.accept cfg s' (.unlinkBounce m) = none := by
-  simp only [Daemon.accept] at h
+  refine (?_ : ∀ t : Daemon.St, Daemon.acceptCore cfg t (.bounceInject m false env body) = some s' →
+      (s'.msg m).bounce = (t.msg m).bounce ∧ (s'.msg m).inFile = (t.msg m).inFile ∧ (s'.msg m).noted = (t.msg m).noted ∧
+      (s'.msg m).bounced = (t.msg m).bounced ∧ (s'.msg m).bounce.isSome = true ∧
+      Daemon.acceptCore cfg s'.calm (.unlinkBounce m) = none) s.calm h
+  clear h s
+  intro s h
+  simp only [Daemon.acceptCore] at h
   split at h
   · cases h
   · rename_i hcl
@@ -929,9 +939,10 @@ theorem C14_daemon_retry (cfg : Daemon.Cfg) (s s' : Daemon.St) (m : Nat) (env bo
         have hm : ((s.upd m fun ms => { ms with lastInject := false }).msg m) = { s.msg m with lastInject := false } := by
           rw [Daemon.St.msg_upd]; simp
         refine ⟨by rw [hm], by rw [hm], by rw [hm], by rw [hm], by rw [hm, hfile]; rfl, ?_⟩
-        have hc : (s.upd m fun ms => { ms with lastInject := false }).clean = s.clean := rfl
+        have hm' : ((s.upd m fun ms => { ms with lastInject := false }).calm.msg m) = { s.msg m with lastInject := false } := hm
+        have hc : (s.upd m fun ms => { ms with lastInject := false }).calm.clean = s.clean := rfl
         have hne : ¬ (info.drop 1).dropLast = [35, 64, 91, 93] := hg.2.2.2.1
-        simp [Daemon.accept, hm, hinfo, hfile, hc, hcl]
+        simp [Daemon.acceptCore, hm', hinfo, hfile, hc, hcl]
         intro _ _ _; simpa using hne
       · cases h
     · cases h
@@ -977,7 +988,8 @@ theorem C14_daemon_verp_discard_gap (dcfg : Daemon.Cfg) (bcfg : Cfg) (date : Byt
   have hbo : bounceOf bcfg date bf { sender := DBSENDER ++ VERPSUF, rcpts := [], body := mess } = none := by
     simp [bounceOf, hd]
   refine ⟨by simp [inject, hbo], by simp [inject, hbo], ?_⟩
-  simp [Daemon.accept, hclean, hi, hb, ht, hl, hrm, hli, DBSENDER, VERPSUF]
+  show Daemon.acceptCore dcfg s.calm (.unlinkBounce m) = none
+  simp [Daemon.acceptCore, Daemon.St.calm_msg, Daemon.St.calm_clean, hclean, hi, hb, ht, hl, hrm, hli, DBSENDER, VERPSUF]
 
 /-! #### Non-vacuity at daemon level: one message from sender `s` to `a`, reported `D x`, paragraph
 appended, record marked, channel file closed, `injectbounce` (model) run, message removed -/
@@ -1026,16 +1038,19 @@ example : ((gacceptAll dcfg0 ginit (pre0 [115] ++ [.bounceInject 7 false [] []])
 example : ((gacceptAll dcfg0 ginit (pre0 [115] ++ [.bounceInject 7 true [70, 0, 84, 115, 0] body0,
       .bounceInject 7 true [70, 0, 84, 115, 0] body0, .unlinkBounce 7])).map fun sg =>
     (sg.2 7).attempts.length == 2 && (sg.2 7).committed.length == 1 && (sg.1.msg 7).bounced == [(.loc, 0)]) = some true := by decide
-/-- the exemption the counts do not show (audit probe): a crash empties the never-fsynced `bounce/7`, a
-notice that does not contain the paragraph is injected and committed — the record counts as bounced
-once, and it is in `lostRecs`, which is exactly the hypothesis the text clauses of
-`C14_daemon_committed`/`C14_daemon_left_queue` exclude -/
-example : ((gacceptAll dcfg0 ginit (pre0 [115] ++ [.crashBounce 7 [], .bounceInject 7 true [70, 0, 84, 115, 0] [88], .unlinkBounce 7] ++ evDone 7)).map fun sg =>
+/-- the exemption the counts do not show (audit probe): a crash (`.restart`) empties the never-fsynced `bounce/7`
+(`crashBounce`, accepted only in the crash window), a notice that does not contain the paragraph is injected and
+committed — the record counts as bounced once, and it is in `lostRecs`, which is exactly the hypothesis the text
+clauses of `C14_daemon_committed`/`C14_daemon_left_queue` exclude -/
+example : ((gacceptAll dcfg0 ginit (pre0 [115] ++ [.restart, .crashBounce 7 [], .bounceInject 7 true [70, 0, 84, 115, 0] [88], .unlinkBounce 7] ++ evDone 7)).map fun sg =>
     (sg.1.msg 7).bounced == [(.loc, 0)] && (sg.2 7).committed.map (·.body) == [[88]] && (sg.1.msg 7).lost &&
     (sg.1.msg 7).lostRecs == [(.loc, 0)] && (sg.2 7).committed.map (·.parts) == [[para0]]) = some true := by decide
 /-- …whereas a crash that leaves the old content as a prefix loses nothing: `lostRecs` stays empty -/
-example : ((gacceptAll dcfg0 ginit (pre0 [115] ++ [.crashBounce 7 (para0 ++ [120])])).map fun sg =>
+example : ((gacceptAll dcfg0 ginit (pre0 [115] ++ [.restart, .crashBounce 7 (para0 ++ [120])])).map fun sg =>
     (sg.1.msg 7).lost && (sg.1.msg 7).lostRecs == [] && (sg.1.msg 7).inFile == [(.loc, 0)]) = some true := by decide
+/-- with no crash the same `crashBounce` is refused (second-pass audit, finding 1): the exemption needs a crash -/
+example : Daemon.acceptAll dcfg0 {} (pre0 [115] ++ [.crashBounce 7 []]) = none ∧
+    Daemon.acceptAll dcfg0 {} (pre0 [115] ++ [.restart, .tick 0, .crashBounce 7 []]) = none := by decide
 /-- an unlink without a successful injection is not accepted -/
 example : Daemon.acceptAll dcfg0 {} (pre0 [115] ++ [.unlinkBounce 7]) = none := by decide
 /-- … nor an injection of something that does not contain the file, nor one with another envelope -/
